@@ -185,7 +185,8 @@ Print Assumptions core_submit_tx_with_proof_binds.
 
 Theorem stateless_api_covered :
   stateless_provider_backed = expected_provider_backed /\
-  map fst api_coverage = map fst stateless_provider_backed.
+  map fst api_coverage = map fst stateless_provider_backed /\
+  stateless_verification_path = expected_verification_path.
 Proof. exact stateless_api_covered_l. Qed.
 Print Assumptions stateless_api_covered.
 
@@ -218,3 +219,11 @@ Theorem lru_capacity_respected (V : Type) (cap : nat) (k : Z) (v : V) (l : list 
   (1 <= cap)%nat -> (length (lru_put cap k v l) <= cap)%nat.
 Proof. exact (lru_put_length cap k v l). Qed.
 Print Assumptions lru_capacity_respected.
+
+Theorem core_validators_binds (H : bytes -> bytes) (height : Z) (lbp : option light_block) (vs : validators) :
+  core_get_validators H None height lbp vs = BOk ->
+  (2 <= height)%Z /\
+  exists p l s, lbp = Some p /\ vs_set vs = Some (l, s) /\ vs_height vs = wrap_i64 (lb_height p + 1) /\
+    root H (map v_bytes l) = lb_next_validators_hash p.
+Proof. exact (core_validators_binds_l H height lbp vs). Qed.
+Print Assumptions core_validators_binds.
